@@ -7,7 +7,7 @@
    zero pivot column is decided by Signed::abs and PartialOrd::gt (with abs = const 0 the code's LU is not a factorisation). *)
 From Coq Require Import List Arith.
 From OV Require Import Base.Panic Base.Arith Inst.QcInst Model.Vector Model.Matrix Model.Solve
-  Proofs.Matrix Proofs.LUPrim Proofs.LUSum Proofs.LU Proofs.LUSolve Proofs.LUInv Proofs.LUQc.
+  Proofs.Matrix Proofs.LUPrim Proofs.LUSum Proofs.LU Proofs.LUSolve Proofs.LUInv Proofs.LUInvC Proofs.LUPanic Proofs.LUSolveC Proofs.LUQc.
 Import ListNotations.
 
 Theorem lu_spec : forall (A : Arith), FieldLaws A -> PivLaws A -> forall M : matrix A, wf M -> rows M = cols M ->
@@ -56,13 +56,48 @@ Print Assumptions solve_lu_sound_c02.
 Example solve_lu_sound_nonvacuous : wf M3 /\ rows M3 = cols M3 /\ length b3 = rows M3 /\ is_ok (solve_lu M3 b3) = true.
 Proof. split; [reflexivity|]. split; [reflexivity|]. split; [reflexivity|]. vm_compute. reflexivity. Qed.
 
+(* determinant: total on square matrices; its value is (+/-) the product of U's diagonal, the sign being the parity of the number
+   of row exchanges `piv` that produced the permutation (sign rule); inverse is decided by the code's own determinant. *)
+Theorem determinant_sign_rule : forall (A : Arith), FieldLaws A -> PivLaws A -> forall (M : matrix A) (n : nat), shape M n n ->
+  exists LU piv P sw, lu_decomp M = Ok (LU, piv, P) /\ shape LU n n /\ shape P n n /\
+    perm_by_swaps n piv P sw /\
+    (forall r c, r < n -> c < n -> ent M (perm_of sw r) c = mprod n (unit_lower LU) (upper LU) r c) /\
+    determinant M = Ok (if Nat.even piv then prod_n n (fun i => ent LU i i)
+                        else neg (prod_n n (fun i => ent LU i i))).
+Proof. intros A FL PL M n. exact (determinant_eq FL PL M n). Qed.
+Check determinant_sign_rule : forall (A : Arith), FieldLaws A -> PivLaws A -> forall (M : matrix A) (n : nat), shape M n n ->
+  exists LU piv P sw, lu_decomp M = Ok (LU, piv, P) /\ shape LU n n /\ shape P n n /\
+    perm_by_swaps n piv P sw /\
+    (forall r c, r < n -> c < n -> ent M (perm_of sw r) c = mprod n (unit_lower LU) (upper LU) r c) /\
+    determinant M = Ok (if Nat.even piv then prod_n n (fun i => ent LU i i)
+                        else neg (prod_n n (fun i => ent LU i i))).
+Print Assumptions determinant_sign_rule.
+
+Theorem determinant_total : forall (A : Arith), FieldLaws A -> PivLaws A -> forall (M : matrix A), wf M -> rows M = cols M ->
+  exists d, determinant M = Ok d.
+Proof. intros A FL PL M. exact (determinant_total_lemma FL PL M). Qed.
+Check determinant_total : forall (A : Arith), FieldLaws A -> PivLaws A -> forall (M : matrix A), wf M -> rows M = cols M ->
+  exists d, determinant M = Ok d.
+Print Assumptions determinant_total.
+
+Theorem inverse_result : forall (A : Arith), FieldLaws A -> PivLaws A -> forall (M : matrix A) (d : A), wf M -> rows M = cols M -> 1 <= rows M ->
+  determinant M = Ok d ->
+  (d = zero -> inverse M = Panic DivZero) /\ (d <> zero -> exists N, inverse M = Ok N).
+Proof. intros A FL PL M d. exact (inverse_result_lemma FL PL M d). Qed.
+Check inverse_result : forall (A : Arith), FieldLaws A -> PivLaws A -> forall (M : matrix A) (d : A), wf M -> rows M = cols M -> 1 <= rows M ->
+  determinant M = Ok d ->
+  (d = zero -> inverse M = Panic DivZero) /\ (d <> zero -> exists N, inverse M = Ok N).
+Print Assumptions inverse_result.
+Example inverse_result_nonvacuous : wf M3 /\ rows M3 = cols M3 /\ 1 <= rows M3 /\ is_ok (determinant M3) = true.
+Proof. split; [reflexivity|]. split; [reflexivity|]. split; [repeat constructor|]. vm_compute. reflexivity. Qed.
+
 (* ---------- the mathcomp half (Bridge/Det.v, Bridge/Inv.v): the model's determinant IS \det ---------- *)
 (* For every mathcomp fieldType F (mathcomp's rat included) with any abs/ltb meeting PivLaws, the arithmetic ArithOf F abs ltb leb
    (div x y = Panic DivZero when y == 0, else x / y) inherits FieldLaws, and the code's determinant of the matrix with entries f i j
    is mathcomp's \det -- for EVERY square matrix: hence the sign rule under any number of exchanges, multiplicativity, and the value 0
    on singular input are mathcomp's theorems about \det (det_perm, det_mulmx, det0P).  tabulate n n f is the flat row-major buffer
    the code stores (Proofs/LUTab.v: every wf matrix is tabulate of its entries). *)
-From OV Require Import Proofs.LUTab Bridge.Det Bridge.Inv Bridge.DetCor Legacy.C02Refuted.
+From OV Require Import Proofs.LUTab Bridge.Det Bridge.Inv Bridge.DetCor Bridge.InvCor Legacy.C02Refuted.
 From mathcomp Require Import all_ssreflect all_algebra.
 Local Open Scope ring_scope.
 
@@ -164,3 +199,51 @@ Print Assumptions determinant_mul.
 (* determinant_row_swap / determinant_mul: their determinant hypotheses always hold (determinant_is_det: the code's determinant
    returns a value on every square matrix), so they are not vacuous; Legacy/C02Refuted.v (determinant_legacy_refuted) shows the
    pre-repair code violates determinant_singular_zero on the all-ones matrix. *)
+
+(* the inverse the code returns is THE inverse; it returns exactly on nonsingular input and panics (DivZero) exactly on singular input *)
+Theorem inverse_unique : forall (F : fieldType) (abs : F -> F) (ltb leb : F -> F -> bool),
+  PivLaws (ArithOf F abs ltb leb) -> forall (M N : Matrix.matrix (ArithOf F abs ltb leb)) (N'f : nat -> nat -> F),
+  wf M -> rows M = cols M -> @Solve.inverse (ArithOf F abs ltb leb) M = Ok N ->
+  (forall i j, (i < rows M)%coq_nat -> (j < rows M)%coq_nat -> @mprod (ArithOf F abs ltb leb) (rows M) (@ent _ M) N'f i j = @delta (ArithOf F abs ltb leb) i j) ->
+  forall i j, (i < rows M)%coq_nat -> (j < rows M)%coq_nat -> N'f i j = @ent (ArithOf F abs ltb leb) N i j.
+Proof. intros F abs ltb leb PL M N N'f. exact (inverse_unique_lemma PL (M:=M) (N:=N) (N'f:=N'f)). Qed.
+Check inverse_unique : forall (F : fieldType) (abs : F -> F) (ltb leb : F -> F -> bool),
+  PivLaws (ArithOf F abs ltb leb) -> forall (M N : Matrix.matrix (ArithOf F abs ltb leb)) (N'f : nat -> nat -> F),
+  wf M -> rows M = cols M -> @Solve.inverse (ArithOf F abs ltb leb) M = Ok N ->
+  (forall i j, (i < rows M)%coq_nat -> (j < rows M)%coq_nat -> @mprod (ArithOf F abs ltb leb) (rows M) (@ent _ M) N'f i j = @delta (ArithOf F abs ltb leb) i j) ->
+  forall i j, (i < rows M)%coq_nat -> (j < rows M)%coq_nat -> N'f i j = @ent (ArithOf F abs ltb leb) N i j.
+Print Assumptions inverse_unique.
+
+Theorem inverse_returns_iff_nonsingular : forall (F : fieldType) (abs : F -> F) (ltb leb : F -> F -> bool),
+  PivLaws (ArithOf F abs ltb leb) -> forall (n : nat) (f : nat -> nat -> F),
+  (exists N, @Solve.inverse (ArithOf F abs ltb leb) (@tabulate (ArithOf F abs ltb leb) n n f) = Ok N) <-> \det (\matrix_(i < n, j < n) f i j) != 0.
+Proof. intros F abs ltb leb PL n f. exact (inverse_ok_iff PL n f). Qed.
+Check inverse_returns_iff_nonsingular : forall (F : fieldType) (abs : F -> F) (ltb leb : F -> F -> bool),
+  PivLaws (ArithOf F abs ltb leb) -> forall (n : nat) (f : nat -> nat -> F),
+  (exists N, @Solve.inverse (ArithOf F abs ltb leb) (@tabulate (ArithOf F abs ltb leb) n n f) = Ok N) <-> \det (\matrix_(i < n, j < n) f i j) != 0.
+Print Assumptions inverse_returns_iff_nonsingular.
+
+Theorem inverse_panics_iff_singular : forall (F : fieldType) (abs : F -> F) (ltb leb : F -> F -> bool),
+  PivLaws (ArithOf F abs ltb leb) -> forall (n : nat) (f : nat -> nat -> F), (1 <= n)%coq_nat ->
+  @Solve.inverse (ArithOf F abs ltb leb) (@tabulate (ArithOf F abs ltb leb) n n f) = Panic DivZero <-> \det (\matrix_(i < n, j < n) f i j) = 0.
+Proof. intros F abs ltb leb PL n f. exact (inverse_panic_iff PL (n:=n) f). Qed.
+Check inverse_panics_iff_singular : forall (F : fieldType) (abs : F -> F) (ltb leb : F -> F -> bool),
+  PivLaws (ArithOf F abs ltb leb) -> forall (n : nat) (f : nat -> nat -> F), (1 <= n)%coq_nat ->
+  @Solve.inverse (ArithOf F abs ltb leb) (@tabulate (ArithOf F abs ltb leb) n n f) = Panic DivZero <-> \det (\matrix_(i < n, j < n) f i j) = 0.
+Print Assumptions inverse_panics_iff_singular.
+
+(* C01 completeness of the LU solver (pinned in Props/C01.v by the coordinator): a left inverse makes solve_lu return *)
+Theorem solve_lu_complete_c02 : forall (F : fieldType) (abs : F -> F) (ltb leb : F -> F -> bool),
+  PivLaws (ArithOf F abs ltb leb) -> forall (n : nat) (f Nf : nat -> nat -> F) (b : list F), (1 <= n)%coq_nat -> length b = n ->
+  (forall i j, (i < n)%coq_nat -> (j < n)%coq_nat -> @mprod (ArithOf F abs ltb leb) n Nf f i j = @delta (ArithOf F abs ltb leb) i j) ->
+  exists x, @Solve.solve_lu (ArithOf F abs ltb leb) (@tabulate (ArithOf F abs ltb leb) n n f) b = Ok x.
+Proof. intros F abs ltb leb PL n f Nf b. exact (solve_lu_complete_bridge PL (n:=n) (f:=f) (Nf:=Nf) (b:=b)). Qed.
+Check solve_lu_complete_c02 : forall (F : fieldType) (abs : F -> F) (ltb leb : F -> F -> bool),
+  PivLaws (ArithOf F abs ltb leb) -> forall (n : nat) (f Nf : nat -> nat -> F) (b : list F), (1 <= n)%coq_nat -> length b = n ->
+  (forall i j, (i < n)%coq_nat -> (j < n)%coq_nat -> @mprod (ArithOf F abs ltb leb) n Nf f i j = @delta (ArithOf F abs ltb leb) i j) ->
+  exists x, @Solve.solve_lu (ArithOf F abs ltb leb) (@tabulate (ArithOf F abs ltb leb) n n f) b = Ok x.
+Print Assumptions solve_lu_complete_c02.
+Example solve_lu_complete_nonvacuous : (* the identity is its own left inverse *)
+  forall i j, (i < 3)%coq_nat -> (j < 3)%coq_nat ->
+    @mprod ratArith 3 (fun i j => if Nat.eqb i j then 1 else 0 : rat) (fun i j => if Nat.eqb i j then 1 else 0 : rat) i j = @delta ratArith i j.
+Proof. intros [|[|[|i]]] [|[|[|j]]] Hi Hj; try (vm_compute; reflexivity); exfalso; move: Hi Hj => /ltP Hi /ltP Hj; discriminate. Qed.
